@@ -31,6 +31,7 @@ theorem scan_ok (bs : List WBatch) (t : Tail) (logs : List Log) (ds : List WBatc
       subst h1 h2
       simp [Spec.dataBatches, Spec.logsOf]
     | invalid => simp [scan] at h
+    | other => simp [scan] at h
   | cons b r ih =>
     simp only [scan] at h
     cases hl : hasLocation b with
@@ -91,6 +92,7 @@ theorem fetchAndResolve_ok (es : Nat) (sh : Option Str) (f : Fetched) (logs : Li
       simp only [hb, Bool.false_eq_true, if_false] at h
       cases parsed with
       | bad => simp at h
+      | other => simp at h
       | stream sch bs tail =>
         simp only at h
         cases hs : scan bs tail with
